@@ -189,11 +189,14 @@ func checkRoomID(res *eventV3) error {
 	if !isCreateEvent && !strings.HasPrefix(res.eventFields.RoomID, "!") {
 		return fmt.Errorf("gomatrixserverlib: room_id must start with !")
 	}
+	if err := checkIDLength(res.eventFields.RoomID, "room"); err != nil {
+		return err
+	}
 	if !isCreateEvent {
 		// RoomID() must not fail later on an event that has been parsed.
 		if err := checkValidRoomID(res.eventFields.RoomID); err != nil {
 			return err
 		}
 	}
-	return checkIDLength(res.eventFields.RoomID, "room")
+	return nil
 }
